@@ -185,6 +185,10 @@ def build_kwargs(problem, cfg, trace, hooks=None, checkpoint=None, x0=None):
         v = P.g(xr)
         if sc != 1.0:
             v = v * sc
+        if cfg.get("reuse_value_buffer") and "vbuf" in gbuf:
+            # the user's gradient code evaluates the objective at neighbouring points through the same object: the one-element array the
+            # objective returns now holds the value at another point
+            gbuf["vbuf"][0] = float(P.f(xr + 1e-3)) if np.all(np.isfinite(xr)) else np.nan
         if cfg.get("grad_dtype"):
             v = v.astype(cfg["grad_dtype"])  # the user's gradient code works in (returns) another floating-point precision
         trace.evals.append(("g", xr, v.copy()))
